@@ -345,8 +345,14 @@ INVALID_KINDS = ["unknown_scheme", "unknown_option", "forbidden_salt", "default_
                  "schemes_per_category", "auto_plus_other", "vary_rounds_negative", "vary_rounds_above_one"]
 
 
+USER_SCHEMES = ("postgres_md5", "oracle10", "cisco_pix")  # need the context keyword user=; the context strips it for the others
+
+
 def _gen_config_program(rng, tier):
     cfg = gen_policy(rng, stringly=True, truncate=True)
+    if rng.random() < 0.3:
+        # a scheme that takes a context keyword: calls then carry user=, which the context must keep filtering for the others
+        cfg["schemes"].insert(rng.randint(0, len(cfg["schemes"])), rng.choice(USER_SCHEMES))
     # custom (unregistered) hashers can only wrap real classes, not PrefixWrapper objects
     faulty = rng.random() < 0.45 and "ldap_md5_crypt" not in cfg["schemes"]
     ops = []
